@@ -367,3 +367,122 @@ Section dom.
         * unfold K in HfK. rewrite HK in HfK. apply elem_of_list_singleton in HfK. subst f. lia.
   Qed.
 End dom.
+
+(* ================================================================ instantiation: the cone of an output of L *)
+From CG Require Import Proofs.SupergatesProofs.
+
+Section cone_facts.
+  Context (L : circuit) (o : string) (rank : string → nat).
+  Hypothesis Hclosed : closed L.
+  Hypothesis Hrank : ∀ n i f, L !! n = Some i → f ∈ n_fi i → rank f < rank n.
+  Hypothesis HoL : o ∈ dom L.
+  Hypothesis Hup : up_ok L o.
+  Let up := tfi_star L o.
+  Let co := cone L o.
+
+  Lemma up_sub_dom z : z ∈ up → z ∈ dom L.
+  Proof.
+    unfold up, tfi_star. apply (dfs_least _ (λ z, z ∈ dom L)).
+    - intros x y [i Hi]%elem_of_dom Hy%elem_of_elements. apply elem_of_fanin in Hy as (i' & Hi' & Hy). by eapply Hclosed.
+    - intros x ->%elem_of_singleton. done.
+    - intros x ->%elem_of_list_singleton. by apply elem_of_singleton.
+  Qed.
+  Lemma cone_dom z : z ∈ dom co ↔ z ∈ up.
+  Proof.
+    split.
+    - intros [j Hj]%elem_of_dom. by apply cone_lookup in Hj as [? _].
+    - intros Hz. pose proof (up_sub_dom z Hz) as [k Hk]%elem_of_dom. unfold co, cone.
+      apply elem_of_dom. destruct (decide (o = z)) as [->|Hne].
+      + rewrite lookup_alter, lookup_fmap. erewrite (proj2 (subgraph_lookup L _ z _)); [done|]. split; [done|]. eauto.
+      + rewrite lookup_alter_ne, lookup_fmap by done. erewrite (proj2 (subgraph_lookup L _ z _)); [done|]. split; [done|]. eauto.
+  Qed.
+  Lemma cone_fanin z : z ∈ up → fanin co z = fanin L z.
+  Proof.
+    intros Hz. pose proof (proj2 (cone_dom z) Hz) as [j Hj]%elem_of_dom. pose proof Hj as Hj'.
+    apply cone_lookup in Hj' as (_ & k & Hk & _ & Hfi). unfold fanin. rewrite Hj, Hk. simpl. rewrite Hfi.
+    destruct Hup as [_ Hcl]. specialize (Hcl z Hz). unfold fanin in Hcl. rewrite Hk in Hcl. simpl in Hcl. fold up. set_solver.
+  Qed.
+  Lemma cone_ty z j : co !! z = Some j → ∃ k, L !! z = Some k ∧ n_ty j = n_ty k.
+  Proof. intros Hj. apply cone_lookup in Hj as (_ & k & Hk & Ht & _). eauto. Qed.
+  Lemma cone_C1 x f : x ∈ dom co → f ∈ fanin co x → f ∈ dom co ∧ rank f < rank x.
+  Proof.
+    intros Hx%cone_dom Hf. rewrite (cone_fanin x Hx) in Hf. pose proof Hf as (i & Hi & Hfi)%elem_of_fanin. split; [|by eapply Hrank].
+    apply cone_dom. destruct Hup as [_ Hcl]. by apply (Hcl x Hx).
+  Qed.
+  Lemma cone_C3 : o ∈ dom co.
+  Proof. apply cone_dom. by destruct Hup. Qed.
+  Lemma cone_C2 (P : string → Prop) : P o → (∀ x f, x ∈ dom co → P x → f ∈ fanin co x → P f) → ∀ x, x ∈ dom co → P x.
+  Proof.
+    intros Po Hstep x Hx%cone_dom. cut (x ∈ dom co ∧ P x); [tauto|]. revert x Hx. unfold up, tfi_star.
+    apply (dfs_least _ (λ z, z ∈ dom co ∧ P z)).
+    - intros x y [Hx HP] Hy%elem_of_elements. rewrite <- (cone_fanin x) in Hy by (by apply cone_dom).
+      split; [by apply (cone_C1 x)|by eapply Hstep].
+    - intros x ->%elem_of_singleton. split; [apply cone_C3|done].
+    - intros x ->%elem_of_list_singleton. by apply elem_of_singleton.
+  Qed.
+End cone_facts.
+
+(* sharper view of modify_io: a node keeps its type unless it is a non-constant node without fan-in *)
+Lemma fix_io_lookup' g n i : fix_io g !! n = Some i →
+  ∃ k, g !! n = Some k ∧ n_fi i = n_fi k ∧
+       n_ty i = if is_const (n_ty k) then n_ty k else if bool_decide (n_fi k = ∅) then Input else n_ty k.
+Proof.
+  unfold fix_io. rewrite map_lookup_imap. destruct (g !! n) as [k|] eqn:E; simpl; [|done]. intros [= <-]. exists k. done.
+Qed.
+
+Section fanin_eq.
+  Context (L : circuit) (rank : string → nat).
+  Hypothesis Hclosed : closed L.
+  Hypothesis Hrank : ∀ n i f, L !! n = Some i → f ∈ n_fi i → rank f < rank n.
+  Hypothesis Hbound : ∀ n i, L !! n = Some i → size (n_fi i) ≤ 2.
+  Hypothesis Hconst : ∀ n i, L !! n = Some i → is_const (n_ty i) = true → n_fi i = ∅.
+
+  (* every gate of a supergate grown in the cone of an output has all its operands inside *)
+  Lemma cone_supergates_fanin_eq o l sg : o ∈ dom L → cone_supergates L o = Some l → sg ∈ l →
+    ∀ n, n ∈ gates (c_g sg) → fanin (c_g sg) n = fanin L n.
+  Proof.
+    intros HoL. unfold cone_supergates. case_bool_decide as Hcert; [|done]. destruct Hcert as (Hup & Hav & Hgrow).
+    intros Heq Hin. apply (inj Some) in Heq. subst l. apply elem_of_list_fmap in Hin as ([r S] & -> & Hgs). simpl.
+    rewrite Forall_forall in Hgrow. specialize (Hgrow _ Hgs). clear Hgs.
+    intros n [Hnd Hni]%elem_of_difference. apply elem_of_dom in Hnd as [i Hi].
+    assert (∃ i', fix_io (subgraph (cone L o) S) !! n = Some i' ∧ n_ty i = n_ty i' ∧ n_fi i = n_fi i') as (i' & Hi' & Ht & Hf).
+    { simpl in Hi. destruct (decide (r = n)) as [->|Hne].
+      - rewrite lookup_alter in Hi. destruct (fix_io _ !! n) as [i'|]; simpl in Hi; [|done]. injection Hi as <-. by exists i'.
+      - rewrite lookup_alter_ne in Hi by done. by exists i. }
+    apply fix_io_lookup' in Hi' as (k & Hk & Hfk & Hty).
+    apply subgraph_lookup in Hk as (HnS & k0 & Hk0 & ->). simpl in *.
+    pose proof Hk0 as Hk0'. apply cone_lookup in Hk0' as (Hnup & kL & HkL & HtL & HfL).
+    assert (fanin (cone L o) n = fanin L n) as Hfan by (eapply cone_fanin; eauto).
+    assert (n_fi k0 = n_fi kL) as HfkL. { unfold fanin in Hfan. rewrite Hk0, HkL in Hfan. done. }
+    unfold fanin at 1. simpl. rewrite Hi. simpl. rewrite Hf, Hfk. unfold fanin. rewrite HkL. simpl. rewrite <- HfkL.
+    destruct (is_const (n_ty k0)) eqn:Hc.
+    { rewrite HtL in Hc. rewrite HfkL, (Hconst n kL HkL Hc). apply intersection_empty_l_L. }
+    case_bool_decide as Hemp.
+    { exfalso. apply Hni. apply elem_of_inputs. exists i. split; [done|]. congruence. }
+    (* some operand is inside: all are *)
+    assert (∃ f0, f0 ∈ n_fi k0 ∩ S) as [f0 [Hf0 Hf0S]%elem_of_intersection] by (apply set_choose_L; done).
+    assert (n_fi k0 ⊆ S) as Hsub; [|apply set_eq; intros z; rewrite elem_of_intersection; split; [tauto|intros Hz; split; [done|by apply Hsub]]].
+    intros f Hfk0.
+    assert (∀ x f, x ∈ dom (cone L o) → f ∈ fanin (cone L o) x → f ∈ dom (cone L o) ∧ rank f < rank x) as C1
+      by (intros; eapply cone_C1; eauto).
+    assert (∀ P : string → Prop, P o → (∀ x f, x ∈ dom (cone L o) → P x → f ∈ fanin (cone L o) x → P f) →
+            ∀ x, x ∈ dom (cone L o) → P x) as C2 by (intros; eapply cone_C2; eauto).
+    assert (o ∈ dom (cone L o)) as C3 by (eapply cone_C3; eauto).
+    eapply (grown_closed (cone L o) o rank C1 C2 C3 Hav r S n f0 f Hgrow HnS).
+    - unfold fanin. rewrite Hk0. simpl. rewrite HfkL. by eapply Hbound.
+    - unfold fanin. by rewrite Hk0.
+    - done.
+    - unfold fanin. by rewrite Hk0.
+  Qed.
+
+  Theorem supergates_fanin_eq sgs : supergates L = Ok sgs →
+    Forall (λ sg, ∀ n, n ∈ gates (c_g sg) → fanin (c_g sg) n = fanin L n) sgs.
+  Proof.
+    unfold supergates. destruct (minimal_supergates L) as [m| | |] eqn:Em; unfold rbind; try done.
+    destruct (kahn (S (length m)) L m []) as [l|] eqn:Ek; [|done]. intros [= <-].
+    rewrite Forall_forall. intros sg ([ok s] & -> & Hp)%elem_of_list_fmap. simpl.
+    destruct (kahn_sub _ _ _ _ _ Ek _ Hp) as [Hin|Hin]; [|by apply elem_of_nil in Hin].
+    destruct (minimal_supergates_from_cones _ _ Em _ Hin) as (o & l' & Ho & Hc & Hl'). simpl in Hl'.
+    eapply cone_supergates_fanin_eq; try done. apply elem_of_outputs in Ho as (i & Hi & _). by eapply elem_of_dom_2.
+  Qed.
+End fanin_eq.
